@@ -5,7 +5,13 @@ NAME=$1; ID=$2; TIER=${3:-quick}
 cd /verif
 git -C /repo diff --quiet || { echo "/repo has uncommitted changes"; exit 2; }
 git -C /repo apply /verif/seeded/$NAME/patch.diff || { echo "patch does not apply"; exit 2; }
+# evidence and replays committed in /verif must describe the unchanged tree: keep them aside
+mkdir -p /tmp/run_seed_keep; rm -rf /tmp/run_seed_keep/$ID.replays
+cp evidence/$ID.json /tmp/run_seed_keep/$ID.json 2>/dev/null
+[ -d replays/$ID ] && cp -r replays/$ID /tmp/run_seed_keep/$ID.replays
 ./bin/vcheck $ID --tier $TIER > /tmp/run_seed_$NAME.$ID.log 2>&1; RC=$?
 git -C /repo checkout -- .
+cp /tmp/run_seed_keep/$ID.json evidence/$ID.json 2>/dev/null
+rm -rf replays/$ID; [ -d /tmp/run_seed_keep/$ID.replays ] && cp -r /tmp/run_seed_keep/$ID.replays replays/$ID
 grep -E "^(vcheck: C|VIOLATION|KNOWN|violation class)" /tmp/run_seed_$NAME.$ID.log | head -8
 echo "SEED $NAME check $ID exit=$RC"
